@@ -193,6 +193,7 @@ fn mk_reader<const D: usize>(
     assign: [u8; NS],
     record: [genotype::Result; NS],
     projection: Option<PartialProjection>,
+    dirty_skipped: Option<bool>,
 ) -> Reader {
     let reader = MemReader {
         samples: vec![sample_name(0, &assign), sample_name(1, &assign), sample_name(2, &assign)],
@@ -207,7 +208,15 @@ fn mk_reader<const D: usize>(
         r.totals.0[p] = kani::any();
         p += 1;
     }
-    r.skipped_samples.push((sample::Id(0), Skipped::Missing));
+    // ... including an empty or non-empty list of skipped samples (solver's choice without a
+    // projection; concrete per harness with one: a symbolic list length there runs CBMC out of memory)
+    let nonempty = match dirty_skipped {
+        Some(b) => b,
+        None => kani::any(),
+    };
+    if nonempty {
+        r.skipped_samples.push((sample::Id(0), Skipped::Missing));
+    }
     r
 }
 
@@ -247,7 +256,7 @@ fn oracle<const D: usize>(assign: &[u8; NS], g: &[genotype::Result; NS]) -> Orac
 /// C01 / C08 / C11: no projection.
 fn counts_case<const D: usize>(assign: [u8; NS]) {
     let g = [any_gt(true), any_gt(true), any_gt(true)];
-    let r = mk_reader::<D>(assign, g, None);
+    let r = mk_reader::<D>(assign, g, None, None);
     let o = oracle::<D>(&assign, &g);
     let mut r = core::mem::ManuallyDrop::new(r);
     let status = r.read_site();
@@ -304,7 +313,7 @@ fn classify_case<const D: usize>(assign: [u8; NS], pattern: usize) {
         p += 1;
     }
     let projection = PartialProjection::new(Count(vec_of(&m)));
-    let r = mk_reader::<D>(assign, g, Some(projection));
+    let r = mk_reader::<D>(assign, g, Some(projection), Some(pattern != 6 && pattern != 7));
     let o = oracle::<D>(&assign, &g);
     let mut exact = true;
     let mut enough = true;
@@ -347,7 +356,7 @@ fn classify_case<const D: usize>(assign: [u8; NS], pattern: usize) {
 fn projected_values_case<const D: usize, const M: usize>(assign: [u8; NS], m: [usize; D], pattern: usize) {
     let g = gts_with_pattern(pattern);
     let projection = PartialProjection::new(Count(vec_of(&m)));
-    let r = mk_reader::<D>(assign, g, Some(projection));
+    let r = mk_reader::<D>(assign, g, Some(projection), Some(pattern != 6 && pattern != 7));
     let o = oracle::<D>(&assign, &g);
     let mut mshape = [0usize; D];
     let mut p = 0;
